@@ -29,7 +29,7 @@ PropsOf(g) ==
     [] g = "C10" -> TlsIffSecure /\ SniAlpn /\ ProtoChoice /\ Routing
     [] g = "C16" -> TimeoutTag /\ NoTimeoutMeansUnlimited
     [] g = "C11" -> /\ ConnectFirst /\ NoHttpBeforeSocksSuccess /\ RefusalStops /\ ForwardAbsoluteForm
-                    /\ SecretsOnProxyHopOnly /\ CallerDataNotInConnect /\ SocksAsConfigured
+                    /\ SecretsOnProxyHopOnly /\ CallerDataNotInConnect /\ SocksAsConfigured /\ MergedNotRepeated
     [] OTHER -> TRUE
 Props == \A g \in PropGroups : PropsOf(g)
 
